@@ -1,12 +1,43 @@
-"""Cold-cache oracle process for C09: reads one JSON request per line on stdin, answers one JSON line on stdout.
-Before every request it sets the option tuple and clears every cache discovered on the package, then evaluates the call."""
+"""Cold oracle process for C09: reads one JSON request per line on stdin, answers one JSON line on stdout.
+
+The process imports the package once and never evaluates anything itself. Every request is evaluated in a child forked from that
+pristine state (options set, discovered caches cleared as well), so the answer cannot depend on any earlier request - not through
+functools caches, not through hand-written tables, class attributes, module globals or objects that an earlier call modified."""
 import json
+import os
 import sys
+
+
+def evaluate_in_child(req):
+    from vf import engine
+    from vf.props import c09
+    r, w = os.pipe()
+    pid = os.fork()
+    if pid == 0:
+        try:
+            os.close(r)
+            try:
+                engine._CACHES = None
+                engine.reset_caches()
+                c09.apply_options(req['opts'])
+                res = c09.evaluate(req['call'])
+            except Exception as e:  # noqa
+                res = ['harness-error', type(e).__name__, str(e)[:200]]
+            with os.fdopen(w, 'w') as f:
+                f.write(json.dumps(res))
+        finally:
+            os._exit(0)
+    os.close(w)
+    with os.fdopen(r) as f:
+        data = f.read()
+    os.waitpid(pid, 0)
+    if not data:
+        return ['harness-error', 'ChildDied', 'the cold child produced no answer']
+    return json.loads(data)
 
 
 def main():
     from vf import engine
-    from vf.props import c09
     engine.bitstring_module()
     out = sys.stdout
     for line in sys.stdin:
@@ -20,14 +51,7 @@ def main():
             out.write(json.dumps({'caches': [n for n, _ in engine._CACHES]}) + '\n')
             out.flush()
             continue
-        try:
-            engine._CACHES = None          # rediscover every time: robust against caches created lazily
-            engine.reset_caches()
-            c09.apply_options(req['opts'])
-            res = c09.evaluate(req['call'])
-        except Exception as e:  # noqa
-            res = ['harness-error', type(e).__name__, str(e)[:200]]
-        out.write(json.dumps(res) + '\n')
+        out.write(json.dumps(evaluate_in_child(req)) + '\n')
         out.flush()
 
 
